@@ -517,24 +517,27 @@ func init() {
 						base := "ipv4/" + core.FuncName(f) + "/calls:" + cl.Name()
 						n[base]++
 						key := fmt.Sprintf("%s#%d", base, n[base])
-						ff := Facts(c, f)
 						special, why := false, "no bool parameter is known to be false here"
 						checked := cl == en
-						for _, fa := range ff.At(b) {
-							if p, ok := fa.Cond.(*ssa.Parameter); ok && !fa.Val && types.Identical(p.Type(), types.Typ[types.Bool]) {
-								if ok, w := carries(f, p, 0); ok {
-									special = true
-									hostParsers[f] = p
-								} else {
-									why = w
+						holdsUpward(c, f, b, 2, func(facts []condFact, root func(ssa.Value) ssa.Value) bool {
+							special, checked = false, cl == en
+							for _, fa := range facts {
+								if p, ok := fa.Cond.(*ssa.Parameter); ok && !fa.Val && types.Identical(p.Type(), types.Typ[types.Bool]) {
+									if ok, w := carries(p.Parent(), p, 0); ok {
+										special = true
+										hostParsers[p.Parent()] = p
+									} else {
+										why = w
+									}
+								}
+								if ec, ok := fa.Cond.(*ssa.Call); ok && ec.Common().StaticCallee() == en && fa.Val {
+									if root(ec.Common().Args[len(ec.Common().Args)-1]) == root(call.Common().Args[len(call.Common().Args)-1]) {
+										checked = true
+									}
 								}
 							}
-							if ec, ok := fa.Cond.(*ssa.Call); ok && ec.Common().StaticCallee() == en && fa.Val {
-								if ec.Common().Args[len(ec.Common().Args)-1] == call.Common().Args[len(call.Common().Args)-1] {
-									checked = true
-								}
-							}
-						}
+							return special && checked
+						})
 						switch {
 						case !special:
 							s.Bad(key, c.P.Pos(call.Pos()), "not confined to special-scheme hosts ("+why+"): opaque hosts could be reinterpreted as IPv4 addresses")
@@ -614,34 +617,37 @@ func init() {
 							s.Bad(key, c.P.Pos(call.Pos()), "the text given to the IPv6 parser is not host[1:len(host)-1]")
 							continue
 						}
-						ff := Facts(c, f)
 						first, last := false, false
-						for _, fa := range ff.At(b) {
-							if bo, ok := fa.Cond.(*ssa.BinOp); ok && bo.Op == token.EQL && fa.Val {
-								// host[0] == '['
-								for _, pr := range [][2]ssa.Value{{bo.X, bo.Y}, {bo.Y, bo.X}} {
-									if k, ok := constInt(pr[1]); ok && k == '[' {
-										var x, idx ssa.Value
-										switch ix := pr[0].(type) {
-										case *ssa.Lookup:
-											x, idx = ix.X, ix.Index
-										case *ssa.Index:
-											x, idx = ix.X, ix.Index
+						holdsUpward(c, f, b, 2, func(facts []condFact, root func(ssa.Value) ssa.Value) bool {
+							first, last = false, false
+							for _, fa := range facts {
+								if bo, ok := fa.Cond.(*ssa.BinOp); ok && bo.Op == token.EQL && fa.Val {
+									// host[0] == '['
+									for _, pr := range [][2]ssa.Value{{bo.X, bo.Y}, {bo.Y, bo.X}} {
+										if k, ok := constInt(pr[1]); ok && k == '[' {
+											var x, idx ssa.Value
+											switch ix := pr[0].(type) {
+											case *ssa.Lookup:
+												x, idx = ix.X, ix.Index
+											case *ssa.Index:
+												x, idx = ix.X, ix.Index
+											}
+											if i0, ok := constInt(idx); ok && i0 == 0 && x != nil && root(x) == root(host) {
+												first = true
+											}
 										}
-										if i0, ok := constInt(idx); ok && i0 == 0 && x == host {
-											first = true
+									}
+								}
+								if hc, ok := fa.Cond.(*ssa.Call); ok && fa.Val {
+									if hcl := hc.Common().StaticCallee(); hcl != nil && hcl.String() == "strings.HasSuffix" && root(hc.Common().Args[0]) == root(host) {
+										if suf, ok := constString(hc.Common().Args[1]); ok && suf == "]" {
+											last = true
 										}
 									}
 								}
 							}
-							if hc, ok := fa.Cond.(*ssa.Call); ok && fa.Val {
-								if hcl := hc.Common().StaticCallee(); hcl != nil && hcl.String() == "strings.HasSuffix" && hc.Common().Args[0] == host {
-									if suf, ok := constString(hc.Common().Args[1]); ok && suf == "]" {
-										last = true
-									}
-								}
-							}
-						}
+							return first && last
+						})
 						switch {
 						case !first:
 							s.Bad(key, c.P.Pos(call.Pos()), "not dominated by host[0] == '['")
@@ -1057,14 +1063,14 @@ func portBufferDigitsOnly(c *Ctx, sm *smModel, call *ssa.Call) (bool, string) {
 	if a == nil {
 		return false, ""
 	}
-	state := a.clauseOf(call.Pos())
+	state := a.groupAt(call.Pos())
 	if state == "" {
 		return false, ""
 	}
 	nWrites := 0
 	for _, cx := range sm.Contexts {
 		for _, p := range sm.Paths[cx.Name] {
-			if p.State == state {
+			if p.State != "<prologue>" && a.groupOf(p.State) == state {
 				for _, w := range p.BufWrites {
 					if w.Buffer != "buffer" {
 						continue
@@ -1076,7 +1082,7 @@ func portBufferDigitsOnly(c *Ctx, sm *smModel, call *ssa.Call) (bool, string) {
 				}
 			}
 			// edges entering the state must leave the buffer empty
-			if !p.Returned && p.Next == state && p.State != state && p.State != "<prologue>" {
+			if !p.Returned && p.Next != "" && p.State != "<prologue>" && a.groupOf(p.Next) == state && a.groupOf(p.State) != state {
 				if !p.BufferEmptyAtEnd {
 					return false, fmt.Sprintf("edge %s→%s does not reset the buffer: text collected before reaches strconv.Atoi", p.State, state)
 				}
